@@ -104,6 +104,16 @@ def main():
             if doccount <= 700:
                 ls = dict((i, [("%d" % (i % 5)).encode(), b"zz"][:1 + i % 2]) for i in pat)
                 roundtrip("VarBytesList", columns.VarBytesListColumn(), ls, doccount, [])
+    # offsets table written (row count above the cutoff) while the LAST stored value pushes the running offset across a
+    # typecode boundary (256, 65536) and the remaining rows are filled at finish()
+    for doccount in (17, 300):
+        for biglen in (255, 256, 300, 65535, 65536, 70000):
+            for where in (0, 3, doccount - 2):
+                rows = {where: b"x" * biglen}
+                if where > 0:
+                    rows[0] = b"ab"
+                roundtrip("VarBytes-offsets-retype", columns.VarBytesColumn(write_offsets_cutoff=16), rows, doccount, b"")
+                roundtrip("CompressedBytes-offsets-retype", columns.CompressedBytesColumn(), rows, doccount, b"")
     import shutil
     shutil.rmtree(tmp, ignore_errors=True)
     print(json.dumps({"cases": counts["cases"], "failures": fails}))
